@@ -86,6 +86,8 @@ type seqOut struct {
 	Ms         int64               `json:"ms"`
 	// a later child got no answer although every earlier child had hung up (the real code is stuck, not the harness)
 	Blocked *blockedObs `json:"blocked,omitempty"`
+	// a pipelined child: its next request was acted upon while the step of the previous one was still running
+	Overtaken *overtakenObs `json:"overtaken,omitempty"`
 	Killed  bool        `json:"killed,omitempty"`  // the parent worker was killed after a wait ran out; the next behaviour gets a fresh one
 	Stopped *stopInfo   `json:"stopped,omitempty"` // last record of a run that stopped early
 	// real signals do not queue: a second kill() issued before the first SIGTERM was picked up is merged by the OS / the Go
@@ -104,6 +106,15 @@ type blockedObs struct {
 	Dropped   []int    `json:"dropped"`   // children that had hung up before
 	Performed []string `json:"performed"` // steps the old process had performed so far in this run
 	Deadline  string   `json:"deadline"`
+}
+
+// overtakenObs: a request written while the parent was inside a step had a visible effect before that step finished.
+type overtakenObs struct {
+	Child      int    `json:"child"`
+	InProgress string `json:"inProgress"` // the step the recording Instance was still blocked in
+	Later      string `json:"later"`      // the request written meanwhile
+	Saw        string `json:"saw"`        // what became visible: a reply, an Instance call, the terminate signal
+	Within     string `json:"within"`
 }
 
 type stopInfo struct {
@@ -420,6 +431,7 @@ type driver struct {
 	behTmo  time.Duration // deadline of a whole behaviour (pauses excluded)
 	pause   time.Duration // real length of a "pause" event
 	burstN  int           // size of the bursts of connect-and-hang-up children
+	overtake time.Duration // how long a step stays blocked after a pipelined request was written (a drain that takes time)
 	hangs   int           // behaviours in which a later child was blocked
 	done    int
 }
@@ -963,6 +975,25 @@ func (d *driver) replay(b *behIn) seqOut {
 			}
 			r.log("refused", e.C, "")
 		case "send":
+			pipelined, inStep, in0 := r.waitAt[e.C], "", 0
+			if pipelined {
+				// the child does not wait for the previous reply.  One frame = one read unit: write only once the parent
+				// is inside the (blocked) step of the previous request, i.e. its call event is here.
+				if len(r.stash) == 0 {
+					select {
+					case ev := <-d.p.calls:
+						r.stash = append(r.stash, ev)
+					case <-d.p.dead:
+						r.parentDied("before a pipelined request")
+						continue
+					case <-time.After(d.tmo):
+						r.note("missing-call", "the step before the pipelined %s was not entered within %s", e.X, d.tmo)
+						continue
+					}
+				}
+				inStep = r.stash[0].X
+				in0 = inq(r.conns[e.C])
+			}
 			if err := r.sendReq(e.C, e.X); err != nil && r.exited {
 				// the parent is gone: the write fails or goes nowhere, the child learns it at its next read
 			} else if err != nil {
@@ -982,6 +1013,38 @@ func (d *driver) replay(b *behIn) seqOut {
 			r.waitAt[e.C] = true
 			sentSinceKill = true
 			r.log("send", e.C, e.X)
+			if pipelined {
+				// the step in progress takes its time (the recording Instance is still blocked in it): nothing of the
+				// later request may show before it is through
+				saw := ""
+				end := time.Now().Add(d.overtake)
+				for saw == "" && time.Now().Before(end) {
+					select {
+					case ev := <-d.p.calls:
+						saw = "the Instance call / signal for " + ev.X
+						out.Calls = append(out.Calls, ev.X)
+						r.log("call", 0, ev.X)
+					case ev := <-d.p.terms:
+						saw = "the terminate signal"
+						out.Calls = append(out.Calls, ev.X)
+						r.log("call", 0, ev.X)
+					default:
+						if conn := r.conns[e.C]; conn != nil && inq(conn) > in0 {
+							res := readReply(conn, 200*time.Millisecond)
+							k := fmt.Sprint(e.C)
+							out.Replies[k] = append(out.Replies[k], res.name)
+							r.log("recv", e.C, res.name)
+							saw = "the reply " + res.name
+						} else {
+							time.Sleep(200 * time.Microsecond)
+						}
+					}
+				}
+				if saw != "" {
+					out.Overtaken = &overtakenObs{Child: e.C, InProgress: inStep, Later: e.X, Saw: saw, Within: d.overtake.String()}
+					r.note("overtaken", "%s was written while step %s was still running, and %s showed up before that step finished", e.X, inStep, saw)
+				}
+			}
 		case "sendbad":
 			if err := r.sendBad(e.C); err != nil && r.exited {
 			} else if err != nil {
@@ -1112,7 +1175,7 @@ func (d *driver) replay(b *behIn) seqOut {
 	expired := out.Blocked != nil
 	for _, is := range out.Issues {
 		switch is.K {
-		case "missing-call", "missing-reply", "shutdown-hangs", "bad-frame-not-consumed", "no-eof", "behaviour-deadline", "api-hangs":
+		case "missing-call", "missing-reply", "shutdown-hangs", "bad-frame-not-consumed", "no-eof", "behaviour-deadline", "api-hangs", "overtaken":
 			expired = true
 		}
 	}
@@ -1300,6 +1363,7 @@ func seqMain(args []string) error {
 	maxHangs := fs.Int("maxhangs", 3, "stop after this many behaviours in which a later child was blocked")
 	waitTmo := fs.Duration("wait", 2*time.Second, "deadline of every single wait on the real code")
 	pause := fs.Duration("pause", 11*time.Second, "real length of a pause event (a child silent on its open connection)")
+	overtake := fs.Duration("overtake", 100*time.Millisecond, "how long a step stays blocked after a pipelined request was written")
 	burst := fs.Int("burst", 0, "a child that connects and hangs up without sending comes with this many more such children")
 	if err := fs.Parse(args); err != nil {
 		return err
@@ -1307,7 +1371,7 @@ func seqMain(args []string) error {
 	if *logp == "" {
 		*logp = *outp + ".parent.log"
 	}
-	d := &driver{logPath: *logp, hook: *kill == "hook", tmo: *waitTmo, behTmo: 15 * time.Second, pause: *pause, burstN: *burst, badIdx: int(cli.Seed()) * 7, unkIdx: int(cli.Seed()) * 3}
+	d := &driver{logPath: *logp, hook: *kill == "hook", tmo: *waitTmo, behTmo: 15 * time.Second, pause: *pause, burstN: *burst, overtake: *overtake, badIdx: int(cli.Seed()) * 7, unkIdx: int(cli.Seed()) * 3}
 	if *badp != "" {
 		if err := cli.ReadNDJSON(*badp, func(line []byte) error {
 			var v frameIn
